@@ -18,7 +18,7 @@ def claim(id, engine, technique, text, note, design):
 claim('C16', 'devx-full',
       'exhaustive enumeration (full product) of the real function against a reference model',
       'Every ACS list of length <= 3 (quick) / <= 4 (thorough) over the 100 entry shapes of the quantifier x 6 requested bindings is executed on the real GetAcsUrlAndBindingForResponse and compared with a 12-line reference selection function written from the statement; plus every list of length <= 2 end-to-end through the SSO handler (pair handed to CreateAuthRequest). The quantifier is finite, so this decides the property on exactly the space it names.',
-      'Index values outside {0,1,2,7,65535} and non-numeric index strings are outside the alphabet.', '§5 C16')
+      'Index values other than 0, 1, 2, 7, 65535 occur only in the spelling family (8-12 with leading zeros / plus sign); white-space-padded and non-numeric index strings are outside the alphabet (the code reads them as 0, which the statement does not settle).', '§5 C16')
 claim('C20', 'devx-full',
       'exhaustive enumeration of all step sequences (explicit-state, depth-bounded) against a reference interpreter',
       'All chains of length <= 4 (quick) / <= 6 (thorough) over 17 step symbols (8 constructors x outcomes) are built with the real checker, evaluated twice, and the recorded trace of value/condition/logic/callback invocations is compared with a reference interpreter; per-kind semantics over small parameter grids.',
